@@ -398,17 +398,19 @@ func buildRestoreNode(p *Program, tier string, which string) ([]*Unit, []UnitErr
 var (
 	rePosSpace = regexp.MustCompile(`#(ensures|join\d+\.\d+|loop\d+-(entry|preserve(\.\d+)?)):(foreach_)?(inv|cursor_monotone|lines_prefix|comments_prefix|lines_array_old_or_fresh|count|backing|old_rows|frame_new)$|#call:.*:(inv|at_cursor)@\d+$|#pos:|#comments:|#frame|#loop\d+-(entry|preserve(\.\d+)?):(count|length|cursor|offsets|prefix|at_newline|inv|sorted|pos|last|rest|lines_prefix|comments_prefix|cursor_monotone|comments|lines|untouched|index|lines_array_old_or_fresh)$|#ensures:(lines_array_old_or_fresh|added|cursor|offsets|prefix|at_newline|at_newline_kept|sorted|last|single_line_is_noop|covers_cursor|covers_lines|covers_comments|positive_or_empty|ends_at_newline|empty_is_noop|registered_at_slash)$`)
 	reMaps     = regexp.MustCompile(`#(ensures|join\d+\.\d+|loop\d+-(entry|preserve(\.\d+)?)):(foreach_)?(maps|mapped|mapped_back|mapped_self|ast_map_grows|dst_map_grows|fresh_unless_duplicate|fresh_unless_known|result_not_nil)$|#call:.*:maps@\d+$|#maps:created_node_mapped`)
-	reFields   = regexp.MustCompile(`#fields:|#loop\d+-(entry|preserve(\.\d+)?):foreach_(elems|length)$`)
+	reFields   = regexp.MustCompile(`#fields:|#ensures:plain_ident$|#loop\d+-(entry|preserve(\.\d+)?):foreach_(elems|length)$`)
 	reTape     = regexp.MustCompile(`#tape:`)
 	reSpaces   = regexp.MustCompile(`#tape:(qualified\.)?(before_first|after_last|two_spaces|no_decorations)$`)
-	reDup      = regexp.MustCompile(`#ensures:duplicates_rejected$|#maps:registered_before_recursion`)
+	// a comment decoration becomes one ast.Comment in one group that is registered once, when it is created
+	reCommentsOnce = regexp.MustCompile(`(applyDecorations|addCommentField)#(comments:|ensures:(registered_at_slash|comments_prefix|empty_is_noop)$|call:.*:at_cursor@\d+$)`)
+	reDup          = regexp.MustCompile(`#ensures:duplicates_rejected$|#maps:registered_before_recursion`)
 )
 
 func restoreUnitsOf(p *Program, tier string, helpers bool) ([]*Unit, []UnitError) {
 	var us []*Unit
 	var es []UnitError
 	if helpers {
-		us, es = buildFuncUnits(p, []string{fr("applySpace"), fr("applyDecorations"), fr("addCommentField"), fr("applyLiteral"), fr("fileSize")},
+		us, es = buildFuncUnits(p, []string{fr("applySpace"), fr("applyDecorations"), fr("addCommentField"), fr("applyLiteral"), fr("fileSize"), fr("updateImports")},
 			map[string]*UnitOpts{fr("applyDecorations"): commentsRegistrationOpts(), fr("addCommentField"): commentsRegistrationOpts()})
 	}
 	us2, es2 := buildRestoreNode(p, tier, "")
@@ -459,11 +461,13 @@ func init() {
 		Title:    "Tokens and comments survive decorate+print for any parseable source",
 		Packages: []string{pkgDecorator},
 		Build: func(p *Program, tier string) ([]*Unit, []UnitError) {
-			us, es := restoreUnitsOf(p, tier, false)
+			us, es := restoreUnitsOf(p, tier, true)
 			us2, es2 := buildDecorateNode(p, tier)
 			return append(us, us2...), append(es, es2...)
 		},
-		Select:   func(n string) bool { return reFields.MatchString(n) || strings.HasSuffix(n, "#tape:children_once") },
+		Select: func(n string) bool {
+			return reFields.MatchString(n) || strings.HasSuffix(n, "#tape:children_once") || reCommentsOnce.MatchString(n)
+		},
 		Siblings: "C11 (maps), C12 (position space), C04 (tape)",
 		Assumptions: []string{
 			"partial: decides the slip the statement names (a missing child or token-carrying field in a generated case) in both directions: decorateNode carries every child, list, token and string field of ast.T to dst.T and restoreNode carries it back; comment attachment (fragment/link) and exactly-once comment emission are not under contract",
